@@ -167,7 +167,7 @@ def case_detect(case):
             try:
                 for k, w in c.items():
                     v = v.subs(k, w)
-                if v.has(sympy.zoo, sympy.nan, sympy.oo, -sympy.oo):
+                if v.has(sympy.zoo, sympy.nan, sympy.oo, -sympy.oo) or _denominator_vanishes(e, c):
                     bad_p = True
                     break
             except Exception:
@@ -201,6 +201,28 @@ def case_detect(case):
     reported_pairs = sorted(sorted([str(k), str(v)]) for c in reported_all for k, v in c.items())
     return {"payload": {"entries": entries, "solve": table, "undefined_A": undefined}, "real_ids": real_ids, "reported": [json.loads(conds[i]) for i in real_ids],
             "reported_pairs": reported_pairs, "problems": problems, "n_solve_calls": len(solves), "structure": structure}
+
+
+def _denominator_vanishes(e, cond):
+    """does some denominator of `e` (base of a negative power) become identically zero under the substitution?  The substituted base is
+    simplified and, as a safeguard against an unfinished simplification, evaluated exactly at two random rational points."""
+    import random
+    import sympy
+    rnd = random.Random(12345)
+    for sub in sympy.preorder_traversal(e):
+        if sub.is_Pow and sub.args[1].is_number and sub.args[1].is_negative:
+            b = sub.args[0]
+            for k, w in cond.items():
+                b = b.subs(k, w)
+            try:
+                if sympy.simplify(b) == 0:
+                    return True
+                fs = sorted(b.free_symbols, key=str)
+                if fs and all(sympy.nsimplify(b.subs({x: sympy.Rational(rnd.randint(2, 97), rnd.randint(2, 89)) for x in fs}), rational=True) == 0 for _ in range(2)):
+                    return True
+            except Exception:
+                continue
+    return False
 
 
 def _undefined(M, cond):
@@ -263,6 +285,10 @@ OSCILLATORS = [
     {"indict": {"dynamics": [{"expression": "x'' = -k*x", "initial_values": {"x": "1", "x'": "0"}}]}, "expected": [], "form": None, "n": 2},
     {"indict": {"dynamics": [{"expression": "x'' = -k*x - d*x'", "initial_values": {"x": "1", "x'": "0"}}]}, "expected": [], "form": None, "n": 2},
     {"indict": {"dynamics": [{"expression": "u' = -a*u + v", "initial_value": "1"}, {"expression": "v' = -k*u - a*v", "initial_value": "0"}]}, "expected": [], "form": None, "n": 2},
+    # a parameter that occurs in a denominator of A only inside entries that are SUMS (two leak paths): `tau_1 = 0` makes A undefined and is no finding
+    {"indict": {"dynamics": [{"expression": "x' = -x/tau_1 - x/tau_2", "initial_value": "1"}]}, "expected": [], "form": None, "n": 1},
+    {"indict": {"dynamics": [{"expression": "x' = -x/tau_1 - x/tau_2", "initial_value": "1"}, {"expression": "y' = x/C - y/tau_3", "initial_value": "0"}]}, "expected": [], "form": None, "n": 2},
+    {"indict": {"dynamics": [{"expression": "x' = -(1/tau_1 + 1/tau_2)*x", "initial_value": "1"}, {"expression": "y' = x - y/tau_3 - y/tau_1", "initial_value": "0"}]}, "expected": [], "form": None, "n": 2},
 ]
 
 
